@@ -118,7 +118,12 @@ fn path_c(signers: &[SignerWithStake], pp: &ProtocolParameters) -> Result<Value,
     let txt = serde_json::to_string(&msg).map_err(|e| e.to_string())?;
     let msg: MithrilStakeDistributionMessage = serde_json::from_str(&txt).map_err(|e| e.to_string())?;
     let cert = CertificateMessage { protocol_message: ProtocolMessage::new(), ..CertificateMessage::dummy() };
-    let pm = MessageBuilder::new().compute_mithril_stake_distribution_message(&cert, &msg).map_err(|e| format!("client: {e:#}"))?;
+    // one long-lived builder per worker thread (as a client application would keep it), and all messages carry the
+    // same announced `hash` field: the recomputation must depend on the signers actually listed, not on any memo
+    thread_local! {
+        static BUILDER: MessageBuilder = MessageBuilder::new();
+    }
+    let pm = BUILDER.with(|b| b.compute_mithril_stake_distribution_message(&cert, &msg)).map_err(|e| format!("client: {e:#}"))?;
     let enc = pm.get_message_part(&ProtocolMessagePartKey::NextAggregateVerificationKey).ok_or("no avk part")?;
     let key = ProtocolKey::<AggregateVerificationKeyForConcatenation<D>>::try_from(enc.as_str()).map_err(|e| format!("avk decode: {e:#}"))?;
     Ok(avk_view(&key))
